@@ -351,7 +351,7 @@ def generate(rng, opts):
         # a long-lived loader that already served another request (cached directory listings, inserted search paths)
         "reuse_loader": rng.random() < 0.3,
         # search-path directories are named by the user: one name may be a string prefix of another, or hold a space
-        "sp_names": rng.sample(["lib", "lib2", "src", "src-extra", "sp1", "sp10", "site packages", "x"], 3) if rng.random() < 0.5 else None,
+        "sp_names": rng.sample(["lib", "lib2", "src", "src-extra", "sp1", "sp10", "site packages", "x", "libs #2", "a#c"], 3) if rng.random() < 0.5 else None,
         "other_top": rng.choice(TOP_NAMES + ["nothing_here", "<same>", "<same>"]),
         "sp_order": sp_order,
         "world": {"dirs": dirs, "n_listed": n_listed},
